@@ -326,7 +326,7 @@ func cmdCheck(args []string) int {
 	tmpS, _ := os.MkdirTemp("", "verif-samples-")
 	defer os.RemoveAll(tmpS)
 	for i, s := range samples {
-		if s.Inputs == nil {
+		if s.Tier != "T1-model" {
 			continue
 		}
 		p := filepath.Join(tmpS, fmt.Sprintf("s%d.json", i))
